@@ -41,7 +41,8 @@ int vfx_kill(pid_t pid, int sig) {
   vf_event(EV_KILL, pid, sig, r, 0);
   if (r) { errno = ESRCH; return -1; }
   // a delivered SIGKILL makes the process leave cgroup.procs (it is gone by the next read)
-  for (int n = 0; n < nnodes; n++) for (int k = 0; k < nodes[n].npids; k++) if (nodes[n].pids[k] == pid && pid > 0) { for (int q = k; q + 1 < nodes[n].npids; q++) nodes[n].pids[q] = nodes[n].pids[q + 1]; nodes[n].npids--; k--; }
+  // (constant loop bounds: the pid lists are symbolic, so data-dependent bounds would unwind to the limit)
+  if (pid > 0) for (int n = 0; n < VFW_MAXN; n++) { if (n >= nnodes) continue; Node& nd = nodes[n]; int w = 0; for (int k = 0; k < VFW_MAXPIDS; k++) if (k < nd.npids && nd.pids[k] != pid) nd.pids[w++] = nd.pids[k]; nd.npids = w; }
   return 0;
 }
 long vfk_syscall(long nr, long a0) {
